@@ -504,6 +504,43 @@ class ModelsMixin(object):
             self.py_raise(KeyError, k)
         return default
 
+    def dict_find(self, d, k):
+        """the key object of d that equals k (deciding symbolic equalities by case split), or _MISSING"""
+        for key in list(d.keys()):
+            if key is k:
+                return key
+            r = self.eq(k, key)
+            if r is True or (r is not False and self.truth(r)):
+                return key
+        return _MISSING
+
+    def dict_sym_method(self, d, name, args, kwargs):
+        """dict operations when a key involved is symbolic (keys are compared by value, like CPython does
+        through __eq__/__hash__)"""
+        if name == "get":
+            return self.dict_get(d, args[0], args[1] if len(args) > 1 else None)
+        if name == "pop":
+            key = self.dict_find(d, args[0])
+            if key is _MISSING:
+                if len(args) > 1:
+                    return args[1]
+                self.py_raise(KeyError, args[0])
+            return d.pop(key)
+        if name == "setdefault":
+            key = self.dict_find(d, args[0])
+            if key is _MISSING:
+                d[args[0]] = args[1] if len(args) > 1 else None
+                return d[args[0]]
+            return d[key]
+        if name == "update":
+            src = dict(args[0]) if args else {}
+            src.update(kwargs)
+            for k, v in src.items():
+                key = self.dict_find(d, k)
+                d[k if key is _MISSING else key] = v
+            return None
+        self.unsupported("dict.%s with a symbolic key" % name)
+
     # ================================================================ comparison
     def compare(self, opname, a, b):
         table = {"==": ast.Eq, "!=": ast.NotEq, "<": ast.Lt, "<=": ast.LtE, ">": ast.Gt, ">=": ast.GtE}
